@@ -392,8 +392,14 @@ create_icf_block_hdr(struct isal_zstream *stream, uint8_t *start_in)
         if (end_out - stream->next_out >= ISAL_DEF_MAX_HDR_SIZE) {
                 /* Assumes ISAL_DEF_MAX_HDR_SIZE is large enough to contain a
                  * max length header and a gzip header */
-                if (stream->gzip_flag == IGZIP_GZIP || stream->gzip_flag == IGZIP_ZLIB)
+                if (stream->gzip_flag == IGZIP_GZIP || stream->gzip_flag == IGZIP_ZLIB) {
+                        /* has_wrap_hdr records that the header is out. The caller's
+                         * choice of wrapper must not be altered by a streaming call:
+                         * isal_deflate_reset() promises to keep it. */
+                        uint16_t gzip_flag = stream->gzip_flag;
                         write_stream_header_stateless(stream);
+                        stream->gzip_flag = gzip_flag;
+                }
                 set_buf(write_buf, stream->next_out, stream->avail_out);
                 buffer_header = 0;
 
